@@ -27,6 +27,13 @@ ASSUMPTIONS_E1 = [
 ]
 
 
+FOCUS_FUNCTIONS = ['restart', '_restartComponent', 'postMortemCheck', '_finish', 'finish', 'shutdown', 'kill', 'Setter',
+                   'suicide', 'runRestart', 'EngineTaskController', 'RunIteration', 'exitReason', 'isAlive', 'finishedCheck',
+                   '_stopComponents', 'kill_all_components', 'notify_all_producers_finished', 'stageIn', 'suspend', 'resume',
+                   'TransitionComponentToFinalState', 'run', 'stateDictionary', 'emit_now', 'StateFilter', 'CheckState',
+                   'HandleTaskExit', 'UpdateStateBasedOnEngine', 'stop_engine', 'completionCheck', 'wake_up', 'sleep']
+
+
 def knobs_from(rng, tier):
     trace = rng.choice(['none', 'none', 'none', 'call', 'call', 'line'])
     # drawn from a generator of its own (seeded from rng's state without advancing it): one run in ten has one slow
@@ -37,7 +44,11 @@ def knobs_from(rng, tier):
     # threads, the controller's main loop, or the workers of one scheduler
     slow_thr = ([r2.choice(['(EngineCore)', 'Thread-', 'MainThread', 'Pool1_', 'Pool3_', 'Pool7_', 'Pool8_']),
                  r2.choice([0.002, 0.01, 0.03])] if r2.random() < 0.0625 else None)
+    # ... and one in six a focus set: every line of 1-3 functions of the runtime's state protocol is a pre-emption point
+    # with a boosted probability (cooperative "buggify" sites, a random subset per run)
+    focus = [sorted(r2.sample(FOCUS_FUNCTIONS, r2.choice([1, 2, 3]))), r2.choice([0.1, 0.3, 0.6])] if r2.random() < 0.17 else None
     return {
+        'focus': focus,
         'slow_thread': slow_thr,
         'slow_pool': slow,
         'preempt_p': rng.choice([0.0, 0.02, 0.1, 0.3]),
@@ -84,10 +95,13 @@ def setup_run(case, schedule, opts, tag='run'):
     engine.ENGINE_LAUNCH_DELAY_SECONDS = knobs.get('launch_delay', 5.0)
     K.adopt_main()
     tr = knobs.get('trace', 'none')
-    if tr != 'none':
+    focus = knobs.get('focus') or None
+    if focus:
+        K.focus_p = focus[1]
+    if tr != 'none' or focus:
         repo_py = os.path.join(os.environ.get('VERIF_REPO', '/repo'), 'python', 'experiment', 'runtime')
         files = [os.path.join(repo_py, f) for f in ('control.py', 'workflow.py', 'engine.py', 'monitor.py')]
-        simk.enable_trace(files, line_level=(tr == 'line'))
+        simk.enable_trace(files, line_level=(tr == 'line'), call_level=(tr != 'none'), focus=(focus[0] if focus else ()))
     return simk, R, K, root
 
 
@@ -102,6 +116,7 @@ def finish_run(simk, R, K, root, result):
     c['kernel.switches'] = K.switches
     c['kernel.threads'] = K.nthreads
     c['fault.stall'] = K.stalls
+    c['fault.preempt_inside_focus_function'] = K.focus_preempts
     if K.slow_thread:
         c['fault.run_with_one_slow_kind_of_thread'] = 1
     if K.slow_pool:
